@@ -81,7 +81,7 @@ func runInproc(t *testing.T, steps []string, scn int) sim.Result {
 				nt++
 				th := fmt.Sprintf("t%d", nt)
 				l := getL(arg)
-				s.Rec.Emit("iacccall", "t", th, "l", arg)
+				s.Rec.Emit("iacccall", "th", th, "l", arg)
 				go func() {
 					p, err := l.Accept()
 					peer := "none"
@@ -92,7 +92,7 @@ func runInproc(t *testing.T, steps []string, scn int) sim.Result {
 							m.Free()
 						}
 					}
-					s.Rec.Emit("iaccret", "t", th, "r", err, "peer", peer)
+					s.Rec.Emit("iaccret", "th", th, "r", err, "peer", peer)
 				}()
 			case "dial":
 				// arg: the dialer name to use (its address and protocol follow from the name)
